@@ -156,6 +156,28 @@ func genX509(repo string, write writer) {
 		})
 		b.WriteString(strings.Join(rows, ",\n"))
 		b.WriteString("\n]\n\n")
+		// (3b) algorithms signingParamsForPublicKey refuses by name: `if requestedSigAlgo == X { err = …; return }`
+		var refused []string
+		ast.Inspect(fd.Body, func(n ast.Node) bool {
+			is, ok := n.(*ast.IfStmt)
+			if !ok {
+				return true
+			}
+			be, ok := is.Cond.(*ast.BinaryExpr)
+			if !ok || be.Op != token.EQL || exprName(be.X) != "requestedSigAlgo" {
+				return true
+			}
+			if id, ok := be.Y.(*ast.Ident); ok && len(is.Body.List) > 0 {
+				if _, isRet := is.Body.List[len(is.Body.List)-1].(*ast.ReturnStmt); isRet {
+					if as, ok := is.Body.List[0].(*ast.AssignStmt); ok && len(as.Lhs) == 1 && exprName(as.Lhs[0]) == "err" {
+						refused = append(refused, fmt.Sprintf("%q", id.Name))
+					}
+				}
+			}
+			return true
+		})
+		b.WriteString("/-- algorithms `signingParamsForPublicKey` refuses by name (`if requestedSigAlgo == X { err = …; return }`) -/\n")
+		b.WriteString("def creatorRefuses : List String := [" + strings.Join(refused, ", ") + "]\n\n")
 	}
 	// (4) how the creators choose between raw TBS and digest: the condition guarding the hashing
 	for _, fn := range []string{"CreateCertificate", "CreateCertificateRequest", "CreateRevocationList"} {
